@@ -309,4 +309,132 @@ def run(tier):
                         "the stored attribute %s.%s (%s) is serialised into the ticket and restored, but no branch of the "
                         "server-side acceptance code depends on it" % (rec, fld, why), file="matrixssl/tls13Resume.c", line=1)
         res.instance("C14.R4", "%s.%s consulted at %s" % (rec, fld, where[:3]), bool(where), finding=f)
+    rule_R5(res, prog, cg)
     return res.finish()
+
+
+def rule_R5(res, prog, cg):
+    """Invalidation by a fatal alert: the server's alert writer removes the session from the cache
+    (matrixClearSession(ssl, <non-zero>)), and a removal wipes the cached master secret on every path that holds the
+    table lock - guarded by nothing but the `remove` argument; matrixUpdateSession wipes it whenever the session carries
+    SSL_FLAGS_ERROR."""
+    from sa import cfgutil as cu
+    from sa.pp import pp
+    res.rule("C14.R5", "a fatal alert invalidates the cache entry: removal wipes the stored master secret on every locked path; "
+                       "the alert writer requests removal")
+    MEMSET = {"memset", "__builtin_memset", "__builtin___memset_chk"}
+
+    def wipes_secret(x):
+        for n in walk(x):
+            if n.get("k") == "call" and n.get("fn") in MEMSET and n.get("a"):
+                d = strip(n["a"][0])
+                z = strip(n["a"][1]) if len(n["a"]) > 1 else None
+                if d is not None and d.get("k") == "mem" and d.get("f") == "masterSecret" and d.get("r") != "sslSec" \
+                        and z is not None and z.get("k") == "int" and z["v"] == 0:
+                    return True
+        return False
+    cs = prog.fn("matrixClearSession")
+    rem = None
+    for p_ in cs.params:
+        if p_.get("n") == "remove" or (p_.get("t") or "").startswith("int") and rem is None and p_ is cs.params[-1]:
+            rem = p_
+    locks = cu.find_sites(cs, lambda n: n.get("k") == "call" and n.get("fn") == "psLockMutex")
+    if not locks or rem is None:
+        raise AnalysisBroken("C14.R5: matrixClearSession lost its lock call or its remove parameter")
+
+    def not_remove_edge(b, k):
+        t = b.get("term")
+        if t is None or "c" not in t:
+            return False
+        c = strip(t["c"])
+        # `if (remove)` : the false edge is the non-removing call
+        if c is not None and c.get("k") == "var" and c.get("id") == rem.get("id"):
+            return k == 1
+        if c is not None and c.get("k") == "bin" and c["op"] in ("!=", "==") and (strip(c["l"]) or {}).get("id") == rem.get("id") \
+                and (strip(c["r"]) or {}).get("k") == "int" and strip(c["r"])["v"] == 0:
+            return k == (1 if c["op"] == "!=" else 0)
+        return False
+    for (bid, idx, ln, node) in locks:
+        path = cu.escapes(cs, (bid, idx), wipes_secret, exempt_edge=not_remove_edge)
+        f_ = None
+        if path is not None:
+            f_ = Finding(PROP, "C14.R5", cs.name, "removal does not always wipe the cached master secret",
+                         "matrixClearSession: with remove != 0 a path from the table lock (line %s) reaches the return at line %s without "
+                         "zeroing the entry's master secret: a session invalidated by a fatal alert stays resumable" % (ln, path[-1][1]),
+                         file=cs.relfile, line=ln, path=["block %s line %s" % p for p in path][-10:])
+        res.instance("C14.R5", "matrixClearSession: lock at line %s -> wipe of the entry's master secret on every removing path" % ln,
+                     path is None, finding=f_)
+    # the alert writer asks for removal
+    n_call = 0
+    for fn in sorted(prog.functions.values(), key=lambda f: f.qname):
+        for b, ln, c in fn.calls():
+            if c.get("fn") == "matrixClearSession" and fn.name == "sslEncodeResponse":
+                n_call += 1
+                a = strip(c["a"][1]) if len(c.get("a", [])) > 1 else None
+                ok = a is not None and a.get("k") == "int" and a["v"] != 0
+                f_ = None
+                if not ok:
+                    f_ = Finding(PROP, "C14.R5", fn.name, "alert writer does not request removal",
+                                 "sslEncodeResponse calls matrixClearSession(ssl, %s) when writing a fatal alert: the entry is only "
+                                 "released, not invalidated" % pp(a), file=fn.relfile, line=ln)
+                res.instance("C14.R5", "sslEncodeResponse: matrixClearSession(ssl, %s) on the fatal-alert path" % pp(a), ok, finding=f_)
+    if n_call == 0:
+        f_ = Finding(PROP, "C14.R5", "sslEncodeResponse", "alert writer no longer invalidates the cache entry",
+                     "sslEncodeResponse no longer calls matrixClearSession when it writes a fatal alert", file=None, line=None)
+        res.instance("C14.R5", "sslEncodeResponse invalidates the cached session when writing a fatal alert", False, finding=f_)
+    # matrixUpdateSession: ERROR flag => wipe
+    us = prog.fn("matrixUpdateSession")
+    gf = cu.guard_facts(us)
+    ok = False
+    for b in us.blocks:
+        for i, ln, x in cu.block_exprs(b):
+            if wipes_secret(x) and any(tr and "ssl->flags" in t_ and "&" in t_ for (t_, tr) in gf.get(b["id"], ())):
+                ok = True
+    f_ = None
+    if not ok:
+        f_ = Finding(PROP, "C14.R5", us.name, "session with SSL_FLAGS_ERROR not invalidated at update",
+                     "matrixUpdateSession no longer wipes the cached master secret under the SSL_FLAGS_ERROR test", file=us.relfile, line=us.line)
+    res.instance("C14.R5", "matrixUpdateSession: SSL_FLAGS_ERROR => cached master secret wiped", ok, finding=f_)
+    # every invalidation also clears the entry's id, and the only writer of a non-zero secret into an entry checks the id
+    n_w = 0
+    for fn in (cs, us):
+        for b in fn.blocks:
+            exprs = [x for i, ln, x in cu.block_exprs(b)]
+            if not any(wipes_secret(x) for x in exprs):
+                continue
+            n_w += 1
+            clears_id = False
+            for x in exprs:
+                for n in walk(x):
+                    if n.get("k") == "call" and n.get("fn") in MEMSET and n.get("a"):
+                        d = strip(n["a"][0])
+                        while d is not None and d.get("k") == "bin":
+                            d = strip(d["l"])
+                        if d is not None and d.get("k") == "mem" and d.get("f") == "id":
+                            clears_id = True
+            f_ = None
+            if not clears_id:
+                f_ = Finding(PROP, "C14.R5", fn.name, "invalidation leaves the entry's id in place",
+                             "%s wipes a cache entry's master secret without clearing its id: another connection of the same "
+                             "session can write its secret back and the invalidated id resumes again" % fn.name,
+                             file=fn.relfile, line=(b["el"][0]["ln"] if b["el"] else fn.line))
+            res.instance("C14.R5", "%s: wipe of the cached secret is paired with clearing the entry's id" % fn.name, clears_id, finding=f_)
+    for b in us.blocks:
+        for i, ln, x in cu.block_exprs(b):
+            for n in walk(x):
+                if n.get("k") == "call" and n.get("fn") in ("memcpy", "__builtin_memcpy", "__builtin___memcpy_chk") and n.get("a"):
+                    d = strip(n["a"][0])
+                    if d is not None and d.get("k") == "mem" and d.get("f") == "masterSecret" and d.get("r") != "sslSec":
+                        n_w += 1
+                        facts = gf.get(b["id"], frozenset())
+                        # branch facts are normalised: `memcmp(..) != 0` false  ==  fact (memcmp(..), False)
+                        okc = any((not tr) and t_.startswith("memcmp(") and ".id" in t_ for (t_, tr) in facts)
+                        f_ = None
+                        if not okc:
+                            f_ = Finding(PROP, "C14.R5", us.name, "master secret written into an entry whose id was not compared",
+                                         "matrixUpdateSession copies the connection's master secret into g_sessionTable[i] (line %s) without the "
+                                         "fact that the entry's id equals the connection's session id: an invalidated or re-used entry receives "
+                                         "this session's secret" % n.get("ln", ln), file=us.relfile, line=n.get("ln", ln))
+                        res.instance("C14.R5", "matrixUpdateSession: secret copied into the entry only under id equality", okc, finding=f_)
+    if n_w < 3:
+        raise AnalysisBroken("C14.R5: wipe / copy sites of the cached master secret not found")
